@@ -657,7 +657,7 @@ func (rc *runCtx) check(prop string, t0 time.Time) int {
 	trusted := []string{
 		"govc (this VC generator): SSA->SMT translation, memory model, frame computation, contract parser",
 		"go/packages + go/ssa (x/tools v0.29.0) build the program the compiler compiles (tag verif adds comment-only files)",
-		"SMT solvers z3 4.8.12 / z3 5.1.0 / cvc5 1.0 (an unsat answer is trusted)",
+		"SMT solvers z3 4.8.12 / z3 5.1.0 / cvc5 1.0 (an unsat answer is trusted; every z3 process runs with smt.mbqi=false, so refutations are built from E-matching instances only)",
 		"machine integers treated as mathematical integers",
 		"strings, UUIDs and times are opaque identifiers (equality, and order where an extern contract says so)",
 		"partial correctness only (termination not proved)",
@@ -731,7 +731,7 @@ func relFiles(fs []string, root string) []string {
 
 // propAssumptions: paper arguments and stated gaps per property (DESIGN.md sections 5, 6, 8).
 var commonAssumptions = []string{
-	"B1 (paper argument): mx serialises all critical sections, so the monitor invariant RI proved at every unlock holds whenever the lock is free, for every history and interleaving; needs the C13 lock-discipline obligations",
+	"B1: mx serialises all critical sections, so the monitor invariant RI proved at every unlock holds whenever the lock is free, for every history and interleaving; needs the C13 lock-discipline obligations. Interference is modelled: at every re-acquisition of the lock and around every call of a lock-taking callee all shared state is havocked and only RI and the rely conditions (proved for every critical section as <fn>/guarantee[..]) are assumed; that the rely conditions are transitive, and that an entry point reads nothing shared before its first acquisition, are paper arguments",
 	"facts carried by an entry point across its own lock acquisition ('assumes' clauses) are stable predicates (Start once set stays set, T)",
 	"no function under contract inserts new keys into a map while ranging over it",
 	"callbacks and injected functions (process, createTaskRunner) do not modify runner state",
@@ -742,13 +742,13 @@ var propAssumptions = map[string][]string{
 	"C03": {"liveness step (paper argument): fair timers and terminating tasks turn 'progress after every unblocking event' into 'eventually starts'"},
 	"C04": {"the spawned cancel goroutine runs and runner.Cancel stops the processes (C20 territory)", "a cancel acknowledged after the last task finished but before JobCompleted is not covered"},
 	"C05": {"B2 (paper argument) for the bound 'waiting <= queue_limit'"},
-	"C07": {"time.AfterFunc calls its function once, not before the delay, and not after a successful Stop; wall-clock time itself is not modelled"},
+	"C07": {"time.AfterFunc calls its function once, not before the delay, and not after a successful Stop (StartDelayedJob[fired]); time is a monotone ghost clock behind time.Now/time.Since, wall-clock adjustments are not modelled", "StartDelayedJob is only called from the timer callback of the job it names"},
 	"C10": {"jsoniter Encode/Decode round trip (codec) is assumed, not proved", "persisted data carries pairwise distinct job ids"},
 	"C11": {"the persist loop turns a request into a save within its interval (select + Sleep, read not verified)", "sync.WaitGroup: Wait returns after all Done calls"},
-	"C12": {"sort.Sort orders by Less; os.RemoveAll removes exactly <logs>/<id>"},
+	"C12": {"sort.Sort orders by Less (trusted postcondition of (pipelineJobBy).Sort; bounded stand-in c12_sort)", "os.RemoveAll(path) returning nil means nothing is left at path; the interface-level ghost 'logs removed' of OutputStore.Remove is the abstraction of FileOutputStore.Remove (whose own contract is proved)", "every real UUID is recovered from its string form (idRoundTrips)"},
 	"C13": {"Go memory model: sync.RWMutex gives happens-before", "the runner is used as a singleton per mutex (ghost lock state is per goroutine, not per runner object)", "taskctl.Scheduler/TaskRunner internals and objects handed out to callers (Variables, Env maps) are outside the claim"},
-	"C15": {"'quiescent moment' is 'lock free' (B1)"},
-	"C16": {"buildJobTasks copies the task definitions (trusted contract; order checked elsewhere)"},
+	"C15": {"'quiescent moment' is 'lock free' (B1)", "time.Now is monotone (ghost clock); jobs loaded from the store carry whatever time stamps the file has and are excluded from the ordering clause"},
+	"C16": {"map iteration order in buildJobTasks is arbitrary (order of the copied tasks is fixed later by sortTasksByDependencies: bounded stand-in)"},
 }
 
 func (rc *runCtx) dump(fnName, oblPat string) int {
